@@ -13,6 +13,7 @@ import (
 	"github.com/go-kit/log"
 	"github.com/go-kit/log/level"
 	"k8s.io/apimachinery/pkg/types"
+	"k8s.io/apimachinery/pkg/util/sets"
 )
 
 // Announce is used to "announce" new IPs mapped to the node's MAC address.
@@ -210,6 +211,10 @@ func (a *Announce) gratuitous(adv IPAdvertisement) {
 		// doing announcements.
 		return
 	}
+	// The queued advertisement may be stale: its service may have been
+	// withdrawn or re-announced with other interfaces while other services
+	// still hold the IP. Announce on what is advertised right now.
+	adv = a.currentAdvertisement(ip)
 
 	if ip.To4() != nil {
 		for _, client := range a.arps {
@@ -232,6 +237,22 @@ func (a *Announce) gratuitous(adv IPAdvertisement) {
 			}
 		}
 	}
+}
+
+// currentAdvertisement merges the interfaces of all the advertisements
+// currently held for ip. Must be called with the lock held.
+func (a *Announce) currentAdvertisement(ip net.IP) IPAdvertisement {
+	res := IPAdvertisement{ip: ip, interfaces: sets.New[string]()}
+	for _, ipAdvertisements := range a.ips {
+		for _, i := range ipAdvertisements {
+			if !i.ip.Equal(ip) {
+				continue
+			}
+			res.allInterfaces = res.allInterfaces || i.allInterfaces
+			res.interfaces = res.interfaces.Union(i.interfaces)
+		}
+	}
+	return res
 }
 
 func (a *Announce) shouldAnnounce(ip net.IP, intf string) dropReason {
